@@ -588,7 +588,13 @@ func (g *gen) havocLoopVar(n *node, st, before *State, name string) {
 
 func (g *gen) loopSpecFor(fr *frame, ord int) *LoopSpec {
 	if fr.top {
-		return g.fs.Loops[ord]
+		if ls := g.fs.Loops[ord]; ls != nil {
+			return ls
+		}
+		if d := g.donorFor(fr, ord); d != nil {
+			return d.ls
+		}
+		return nil
 	}
 	if fs := g.P.spec.Funcs[funcKey(fr.fn)]; fs != nil {
 		return fs.Loops[ord]
@@ -913,7 +919,178 @@ func localSigs(fn *ssa.Function) map[string]localSig {
 	return out
 }
 
+// ---- borrowed loop clauses ----
+// A loop of the function under contract that has no clauses of its own (typically: a helper with a
+// loop was inlined by hand) borrows the loop clauses of another contract of the same package, provided
+// every name those clauses mention resolves here - directly, or through the recorded type/provenance of
+// the donor's locals. A wrong donor can only make obligations fail, never pass: the borrowed invariants
+// are asserted at loop entry and at the back edge like any others.
+type donorRec struct {
+	ls    *LoopSpec
+	alias map[string]string // donor local name -> local name of this function
+	from  string
+}
+
+func exprIdents(e Expr, bound map[string]bool, out map[string]bool) {
+	switch x := e.(type) {
+	case *EIdent:
+		if !bound[x.Name] {
+			out[x.Name] = true
+		}
+	case *EUn:
+		exprIdents(x.X, bound, out)
+	case *EBin:
+		exprIdents(x.L, bound, out)
+		exprIdents(x.R, bound, out)
+	case *ECall:
+		for _, a := range x.Args {
+			exprIdents(a, bound, out)
+		}
+	case *EIndex:
+		exprIdents(x.X, bound, out)
+		exprIdents(x.I, bound, out)
+	case *ESel:
+		exprIdents(x.X, bound, out)
+	case *EIte:
+		exprIdents(x.C, bound, out)
+		exprIdents(x.A, bound, out)
+		exprIdents(x.B, bound, out)
+	case *EOld:
+		exprIdents(x.X, bound, out)
+	case *EAt:
+		exprIdents(x.X, bound, out)
+	case *EQuant:
+		nb := map[string]bool{}
+		for k := range bound {
+			nb[k] = true
+		}
+		for _, v := range x.Vars {
+			nb[v.Name] = true
+		}
+		exprIdents(x.Body, nb, out)
+		for _, p := range x.Patterns {
+			exprIdents(p, nb, out)
+		}
+	}
+}
+
+func (g *gen) donorFor(fr *frame, ord int) *donorRec {
+	if g.donors == nil {
+		g.donors = map[int]*donorRec{}
+	}
+	if d, done := g.donors[ord]; done {
+		return d
+	}
+	g.donors[ord] = nil
+	if g.fs == nil || g.fn == nil {
+		return nil
+	}
+	cur := localSigs(fr.fn)
+	here := map[string]bool{}
+	for n := range cur {
+		here[n] = true
+	}
+	for _, p := range g.fs.Params {
+		here[p.Name] = true
+	}
+	for _, r := range g.fs.Results {
+		here[r.Name] = true
+	}
+	if g.fs.RecvName != "" {
+		here[g.fs.RecvName] = true
+	}
+	pkg := g.P.tpkgs[g.fs.PkgPath]
+	var keys []string
+	for k, dfs := range g.P.spec.Funcs {
+		if dfs != g.fs && dfs.PkgPath == g.fs.PkgPath && len(dfs.Loops) > 0 && !dfs.Assumed {
+			keys = append(keys, k)
+		}
+	}
+	sort.Strings(keys)
+	for _, k := range keys {
+		dfs := g.P.spec.Funcs[k]
+		rec := g.P.localSigs[k]
+		var ords []int
+		for o := range dfs.Loops {
+			ords = append(ords, o)
+		}
+		sort.Ints(ords)
+		for _, o := range ords {
+			dls := dfs.Loops[o]
+			names := map[string]bool{}
+			for _, c := range dls.Invs {
+				exprIdents(c.E, map[string]bool{}, names)
+			}
+			for _, ml := range dls.Modifies {
+				if ml.E != nil {
+					exprIdents(ml.E, map[string]bool{}, names)
+				}
+			}
+			alias := map[string]string{}
+			ok := len(dls.Invs) > 0
+			for n := range names {
+				if strings.HasPrefix(n, "$") || here[n] {
+					continue
+				}
+				if pkg != nil && pkg.Scope().Lookup(n) != nil {
+					continue
+				}
+				osig, known := rec[n]
+				if !known {
+					ok = false
+					break
+				}
+				var cands []string
+				for cn, csig := range cur {
+					if csig.Type != osig.Type {
+						continue
+					}
+					have := map[string]bool{}
+					for _, d := range csig.Sig {
+						have[d] = true
+					}
+					sup := true
+					for _, d := range osig.Sig {
+						if !have[d] && d != "const" && d != "param" {
+							sup = false
+						}
+					}
+					if sup {
+						cands = append(cands, cn)
+					}
+				}
+				if len(cands) != 1 {
+					ok = false
+					break
+				}
+				alias[n] = cands[0]
+			}
+			if ok {
+				d := &donorRec{ls: dls, alias: alias, from: fmt.Sprintf("loop %d of %s", o, shortKey(k))}
+				g.donors[ord] = d
+				g.used[fmt.Sprintf("note:loop %d of %s has no clauses of its own and borrows those of %s", ord, fr.fn.Name(), d.from)] = true
+				return d
+			}
+		}
+	}
+	return nil
+}
+
 func (g *gen) aliasRenamed(fr *frame, out map[string]binding) {
+	if fr.top {
+		for _, d := range g.donors {
+			if d == nil {
+				continue
+			}
+			for dn, cn := range d.alias {
+				if _, bound := out[dn]; !bound {
+					if b, ok := out[cn]; ok {
+						out[dn] = b
+					}
+				}
+			}
+		}
+	}
 	rec := g.P.localSigs[funcKey(fr.fn)]
 	if len(rec) == 0 {
 		return
